@@ -33,7 +33,7 @@ try:
         rd = os.path.join(vs, "replays", p)
         if os.path.isdir(rd):
             import json
-            for f in sorted(os.listdir(rd))[:3]:
+            for f in [x for x in sorted(os.listdir(rd)) if x.endswith('.json') and os.path.isfile(os.path.join(rd, x))][:3]:
                 j = json.load(open(os.path.join(rd, f)))
                 print("    replay:", (j.get("key") or "broken obligations: " + ", ".join(o["name"] if isinstance(o, dict) else o for o in j.get("broken_obligations", [])))[:200],
                       "|", str(j.get("what", ""))[:200])
